@@ -4,11 +4,31 @@ Open Scope N_scope.
 
 Inductive case :=
 | PairCase (c : ccfg) (s : scfg) (c_ok s_ok : bool) (suite alpn : N) (srv_sees_certs : nat)
-           (verified_chains agree certs_match echo : bool).
+           (verified_chains agree certs_match echo : bool)
+(* a later connection of a pair with session caches (configurations possibly changed in between):
+   when it was resumed the suite is the session's (prev), which both configurations must still
+   enable; otherwise it is judged like a first connection *)
+| SecondCase (c : ccfg) (s : scfg) (c_ok s_ok : bool) (suite alpn : N) (srv_sees_certs : nat)
+             (verified_chains agree certs_match echo resumed : bool) (prev : N).
+
+Definition resumed_suite_ok (c : ccfg) (s : scfg) (suite prev : N) : bool :=
+  (suite =? prev) && memN suite (client_offer c) && memN suite (cfg_suites (s_suites s)) && s_has_keys s.
+
+Definition alpn_ok (c : ccfg) (s : scfg) (alpn : N) : bool :=
+  match alpn_pick (s_alpn s) (c_alpn c) with Some p => p =? alpn | None => false end.
 
 Definition mismatch (k : case) : bool :=
   match k with
   | PairCase c s c_ok s_ok suite alpn n vc agree cm echo =>
+      match honest_run c s with
+      | None => c_ok || s_ok
+      | Some o => negb (c_ok && s_ok && (o_suite o =? suite) && (o_alpn o =? alpn) &&
+                        Nat.eqb (o_client_certs_at_server o) n && Bool.eqb (o_verified_chains o) vc &&
+                        agree && cm && echo)
+      end
+  | SecondCase c s c_ok s_ok suite alpn n vc agree cm echo resumed prev =>
+      if resumed then negb (c_ok && s_ok && resumed_suite_ok c s suite prev && alpn_ok c s alpn && agree && cm && echo)
+      else
       match honest_run c s with
       | None => c_ok || s_ok
       | Some o => negb (c_ok && s_ok && (o_suite o =? suite) && (o_alpn o =? alpn) &&
@@ -29,6 +49,25 @@ Definition spec_code (k : case) : N :=
         else if negb cm then 5                                 (* peer certificates are not what the other side presented *)
         else if negb echo then 6                               (* data not delivered unchanged *)
         else if negb (match alpn_pick (s_alpn s) (c_alpn c) with Some p => p =? alpn | None => false end) then 7
+        else 0
+      else 0
+  | SecondCase c s c_ok s_ok suite alpn n vc agree cm echo resumed prev =>
+      if negb (Bool.eqb c_ok s_ok) then 1
+      else if resumed then
+        if negb c_ok then 0
+        else if negb (resumed_suite_ok c s suite prev) then 8      (* resumed on a suite that is not the session's or that one side no longer enables *)
+        else if negb agree then 4
+        else if negb cm then 5
+        else if negb echo then 6
+        else if negb (alpn_ok c s alpn) then 7
+        else 0
+      else if negb (Bool.eqb c_ok (compatible c s)) then 2
+      else if c_ok then
+        if negb (match common_suite c s with Some x => x =? suite | None => false end) then 3
+        else if negb agree then 4
+        else if negb cm then 5
+        else if negb echo then 6
+        else if negb (alpn_ok c s alpn) then 7
         else 0
       else 0
   end.
